@@ -19,7 +19,8 @@ import GojaModel.Generated.C05_Shapes
 namespace GojaModel.C05.Tie
 open GojaModel
 namespace G
-export GojaModel.Generated.C05_Shapes (facts whitespaceChars maxIntShift)
+export GojaModel.Generated.C05_Shapes (facts_canonicalisers facts_conversions facts_mul facts_strnum facts_identity
+  facts_includes facts_mathsign whitespaceChars maxIntShift)
 end G
 
 def auditedSites : List (String × String × String) := [
@@ -42,82 +43,108 @@ def auditedSites : List (String × String × String) := [
   ("vm.go", "floatToValue", "f")
 ]
 
-def canonicalProducers : List String := [
-  "intToValue", "floatToValue", "toNumeric", "pow", ".ToNumber", ".Concat",
-  "_NaN", "_negativeZero", "_positiveZero", "_positiveInf", "_negativeInf",
-  "neg:n"   -- `result = -n` on a canonical valueInt n ≠ 0 (theorem `neg_canon`)
+/-- exactly the audited list, in source order: a new raw `valueFloat(…)` site (e.g. a dropped canonicaliser in an
+operator, or the old tail of `intToValue`) or a removed one changes the regenerated list -/
+theorem numSites_ok : Generated.C05_NumSites.sites = auditedSites := by rfl
+
+/-- the result wrappers of every arithmetic / bitwise / update operator, in source order: each is a canonical
+producer (`intToValue`, `floatToValue`, `toNumeric`, `pow`, constants; `neg:n` = `-n` on a canonical non-zero int,
+theorem `neg_canon`) -/
+def expectedWrappers : List (String × List String) := [
+  ("_add", [".Concat", "intToValue", "floatToValue", "floatToValue"]),
+  ("_sub", ["toNumeric", "toNumeric", "intToValue", "floatToValue"]),
+  ("_mul", ["toNumeric", "toNumeric", "_negativeZero", "intToValue", "floatToValue"]),
+  ("_div", ["toNumeric", "toNumeric", "_NaN", "_NaN", "_NaN", "_positiveInf", "_negativeInf", "_positiveZero", "_negativeZero", "_positiveInf", "_negativeInf", "floatToValue"]),
+  ("_mod", ["toNumeric", "toNumeric", "_NaN", "_negativeZero", "intToValue", "floatToValue"]),
+  ("_neg", ["toNumeric", "_negativeZero", "neg:n", "floatToValue"]),
+  ("_inc", ["intToValue", "floatToValue"]),
+  ("_dec", ["intToValue", "floatToValue"]),
+  ("_and", ["toNumeric", "toNumeric", "intToValue"]),
+  ("_or", ["toNumeric", "toNumeric", "intToValue"]),
+  ("_xor", ["toNumeric", "toNumeric", "intToValue"]),
+  ("_bnot", ["toNumeric", "intToValue"]),
+  ("_sal", ["toNumeric", "toNumeric", "intToValue"]),
+  ("_sar", ["toNumeric", "toNumeric", "intToValue"]),
+  ("_shr", ["toNumeric", "toNumeric", "toNumeric", "intToValue"]),
+  ("_exp", ["toNumeric", "toNumeric", "pow"]),
+  ("_plus", [".ToNumber"])
 ]
 
-theorem numSites_ok :
-    Generated.C05_NumSites.sites.all (fun s => auditedSites.contains s) = true := by decide
+theorem wrappers_ok : Generated.C05_NumSites.wrappers = expectedWrappers := by rfl
 
-theorem wrappers_ok :
-    Generated.C05_NumSites.wrappers.all (fun p => p.2.all (fun w => canonicalProducers.contains w)) = true := by decide
+/-- … and none of them is a raw `valueFloat` / `valueInt` conversion -/
+theorem wrappers_canonical :
+    expectedWrappers.all (fun p => p.2.all (fun w => w != "valueFloat" && w != "valueInt")) = true := by decide
 
 theorem maxInt_tie : (2 : Int) ^ G.maxIntShift = Num.maxInt := by decide
 
 theorem whitespace_tie : G.whitespaceChars = StrNum.trimChars := by decide
 
 /-- vm.go canonicalisers: `intToValue` ends in `floatToValue(float64(i))` (287714a), `floatToInt`'s guard, `floatToValue`'s cases — what `Num.intToValue/floatToInt/floatToValue` transcribe -/
-theorem canonicalisers_tie :
-    G.facts.lookup "returns:intToValue" = some ["intCache[idx]", "valueInt(i)", "floatToValue(float64(i))"] ∧
-    G.facts.lookup "conds:intToValue" = some ["idx >= 0 && idx < 256", "i >= -maxInt && i <= maxInt"] ∧
-    G.facts.lookup "conds:floatToInt" = some ["(f != 0 || !math.Signbit(f)) && !math.IsInf(f, 0) && f == math.Trunc(f) && f >= -maxInt && f <= maxInt"] ∧
-    G.facts.lookup "returns:floatToValue" = some ["intToValue(i)", "_negativeZero", "_NaN", "_positiveInf", "_negativeInf", "valueFloat(f)"] := by decide
+theorem canonicalisers_tie : G.facts_canonicalisers = [
+  ("returns:intToValue", ["intCache[idx]", "valueInt(i)", "floatToValue(float64(i))"]),
+  ("conds:intToValue", ["idx >= 0 && idx < 256", "i >= -maxInt && i <= maxInt"]),
+  ("conds:floatToInt", ["(f != 0 || !math.Signbit(f)) && !math.IsInf(f, 0) && f == math.Trunc(f) && f >= -maxInt && f <= maxInt"]),
+  ("returns:floatToValue", ["intToValue(i)", "_negativeZero", "_NaN", "_positiveInf", "_negativeInf", "valueFloat(f)"])
+] := by rfl
 
 /-- runtime.go / value.go conversions: every ToIntN goes through `float64ToInt64Mod` (c5b41a6); `floatToIntClip`, `toLength`, `toIndex` decisions -/
-theorem conversions_tie :
-    G.facts.lookup "returns:toInt8" = some ["int8(i)", "int8(float64ToInt64Mod(f))", "0"] ∧
-    G.facts.lookup "returns:toUint8" = some ["uint8(i)", "uint8(float64ToInt64Mod(f))", "0"] ∧
-    G.facts.lookup "returns:toInt16" = some ["int16(i)", "int16(float64ToInt64Mod(f))", "0"] ∧
-    G.facts.lookup "returns:toUint16" = some ["uint16(i)", "uint16(float64ToInt64Mod(f))", "0"] ∧
-    G.facts.lookup "returns:toInt32" = some ["int32(i)", "int32(float64ToInt64Mod(f))", "0"] ∧
-    G.facts.lookup "returns:toUint32" = some ["uint32(i)", "uint32(float64ToInt64Mod(f))", "0"] ∧
-    G.facts.lookup "conds:float64ToInt64Mod" = some ["f >= -two63 && f < two63", "f >= two63", "f < -two63"] ∧
-    G.facts.lookup "returns:float64ToInt64Mod" = some ["int64(f)", "int64(f)"] ∧
-    G.facts.lookup "conds:floatToIntClip" = some [] ∧
-    G.facts.lookup "returns:floatToIntClip" = some ["0", "math.MaxInt64", "math.MinInt64", "int64(n)"] ∧
-    G.facts.lookup "conds:toLength" = some ["v == nil", "i < 0", "i >= maxInt"] ∧
-    G.facts.lookup "returns:toLength" = some ["0", "0", "maxInt - 1", "i"] ∧
-    G.facts.lookup "conds:Runtime.toIndex" = some ["num >= 0 && num < maxInt", "bits.UintSize == 32 && num >= math.MaxInt32"] := by decide
+theorem conversions_tie : G.facts_conversions = [
+  ("returns:toInt8", ["int8(i)", "int8(float64ToInt64Mod(f))", "0"]),
+  ("returns:toUint8", ["uint8(i)", "uint8(float64ToInt64Mod(f))", "0"]),
+  ("returns:toInt16", ["int16(i)", "int16(float64ToInt64Mod(f))", "0"]),
+  ("returns:toUint16", ["uint16(i)", "uint16(float64ToInt64Mod(f))", "0"]),
+  ("returns:toInt32", ["int32(i)", "int32(float64ToInt64Mod(f))", "0"]),
+  ("returns:toUint32", ["uint32(i)", "uint32(float64ToInt64Mod(f))", "0"]),
+  ("conds:float64ToInt64Mod", ["f >= -two63 && f < two63", "f >= two63", "f < -two63"]),
+  ("returns:float64ToInt64Mod", ["int64(f)", "int64(f)"]),
+  ("conds:floatToIntClip", []),
+  ("returns:floatToIntClip", ["0", "math.MaxInt64", "math.MinInt64", "int64(n)"]),
+  ("conds:toLength", ["v == nil", "i < 0", "i >= maxInt"]),
+  ("returns:toLength", ["0", "0", "maxInt - 1", "i"]),
+  ("conds:Runtime.toIndex", ["num >= 0 && num < maxInt", "bits.UintSize == 32 && num >= math.MaxInt32"])
+] := by rfl
 
 /-- vm.go `_mul`: the `_negativeZero` guard (bd78985) and the overflow test -/
-theorem mul_tie :
-    G.facts.lookup "conds:_mul.exec" = some ["left == 0 && right < 0 || left < 0 && right == 0", "left == 0 || right == 0 || res/left == right", "ok", "ok"] := by decide
+theorem mul_tie : G.facts_mul = [
+  ("conds:_mul.exec", ["left == 0 && right < 0 || left < 0 && right == 0", "left == 0 || right == 0 || res/left == right", "ok", "ok"])
+] := by rfl
 
 /-- string → number: every conversion trims with `parser.WhitespaceChars` (never `strings.TrimSpace`, e80e384), `radixPrefix`/`stringToInt` decisions (d6061d6, 7637e2e), `ToInteger` (c886782), UTF-16 strings delegate (6010fc8) -/
-theorem strnum_tie :
-    G.facts.lookup "conds:radixPrefix" = some ["len(ss) > 2 && ss[0] == '0'"] ∧
-    G.facts.lookup "returns:radixPrefix" = some ["16", "8", "2", "0"] ∧
-    G.facts.lookup "conds:stringToInt" = some ["ss == \"\"", "base != 0", "ss[2] == '+' || ss[2] == '-'", "err == nil && i == 0 && ss[0] == '-'"] ∧
-    G.facts.lookup "returns:stringToInt" = some ["0, nil", "0, strconv.ErrSyntax", "strconv.ParseInt(ss[2:], base, 64)", "0, strconv.ErrSyntax", "i, err"] ∧
-    G.facts.lookup "trims:trimWhitespace" = some ["strings.Trim(s, parser.WhitespaceChars)"] ∧
-    G.facts.lookup "trims:asciiString.ToNumber" = some ["trimWhitespace(string(s))"] ∧
-    G.facts.lookup "trims:asciiString.ToFloat" = some ["trimWhitespace(string(s))"] ∧
-    G.facts.lookup "trims:asciiString.ToInteger" = some ["trimWhitespace(string(s))"] ∧
-    G.facts.lookup "trims:asciiString.toTrimmedUTF8" = some ["trimWhitespace(string(s))"] ∧
-    G.facts.lookup "trims:unicodeString.toTrimmedUTF8" = some ["strings.Trim(s.String(), parser.WhitespaceChars)"] ∧
-    G.facts.lookup "trims:importedString.toTrimmedUTF8" = some ["strings.Trim(i.s, parser.WhitespaceChars)"] ∧
-    G.facts.lookup "returns:asciiString.ToInteger" = some ["0", "math.MaxInt64", "math.MinInt64", "floatToIntClip(f)", "0", "i"] ∧
-    G.facts.lookup "returns:unicodeString.ToNumber" = some ["asciiString(s.toTrimmedUTF8()).ToNumber()"] ∧
-    G.facts.lookup "returns:unicodeString.ToFloat" = some ["asciiString(s.toTrimmedUTF8()).ToFloat()"] ∧
-    G.facts.lookup "returns:unicodeString.ToInteger" = some ["asciiString(s.toTrimmedUTF8()).ToInteger()"] := by decide
+theorem strnum_tie : G.facts_strnum = [
+  ("conds:radixPrefix", ["len(ss) > 2 && ss[0] == '0'"]),
+  ("returns:radixPrefix", ["16", "8", "2", "0"]),
+  ("conds:stringToInt", ["ss == \"\"", "base != 0", "ss[2] == '+' || ss[2] == '-'", "err == nil && i == 0 && ss[0] == '-'"]),
+  ("returns:stringToInt", ["0, nil", "0, strconv.ErrSyntax", "strconv.ParseInt(ss[2:], base, 64)", "0, strconv.ErrSyntax", "i, err"]),
+  ("trims:trimWhitespace", ["strings.Trim(s, parser.WhitespaceChars)"]),
+  ("trims:asciiString.ToNumber", ["trimWhitespace(string(s))"]),
+  ("trims:asciiString.ToFloat", ["trimWhitespace(string(s))"]),
+  ("trims:asciiString.ToInteger", ["trimWhitespace(string(s))"]),
+  ("trims:asciiString.toTrimmedUTF8", ["trimWhitespace(string(s))"]),
+  ("trims:unicodeString.toTrimmedUTF8", ["strings.Trim(s.String(), parser.WhitespaceChars)"]),
+  ("trims:importedString.toTrimmedUTF8", ["strings.Trim(i.s, parser.WhitespaceChars)"]),
+  ("returns:asciiString.ToInteger", ["0", "math.MaxInt64", "math.MinInt64", "floatToIntClip(f)", "0", "i"]),
+  ("returns:unicodeString.ToNumber", ["asciiString(s.toTrimmedUTF8()).ToNumber()"]),
+  ("returns:unicodeString.ToFloat", ["asciiString(s.toTrimmedUTF8()).ToFloat()"]),
+  ("returns:unicodeString.ToInteger", ["asciiString(s.toTrimmedUTF8()).ToInteger()"])
+] := by rfl
 
 /-- value.go / map.go identity: what `Num.sameAs/hash/normKey/mapFinds` transcribe -/
-theorem identity_tie :
-    G.facts.lookup "conds:valueFloat.SameAs" = some ["math.IsNaN(this) && math.IsNaN(o1)", "ret && this == 0", "ret && this == 0"] ∧
-    G.facts.lookup "returns:valueInt.SameAs" = some ["i == other"] ∧
-    G.facts.lookup "conds:valueFloat.hash" = some ["f == _negativeZero"] ∧
-    G.facts.lookup "conds:orderedMap.lookup" = some ["key == _negativeZero"] := by decide
+theorem identity_tie : G.facts_identity = [
+  ("conds:valueFloat.SameAs", ["math.IsNaN(this) && math.IsNaN(o1)", "ret && this == 0", "ret && this == 0"]),
+  ("returns:valueInt.SameAs", ["i == other"]),
+  ("conds:valueFloat.hash", ["f == _negativeZero"]),
+  ("conds:orderedMap.lookup", ["key == _negativeZero"])
+] := by rfl
 
 /-- builtin_array.go `includes`: search value and BOTH element loops normalise -0 (dd517b9) -/
-theorem includes_tie :
-    G.facts.lookup "conds:Runtime.arrayproto_includes" = some ["length == 0", "n >= length", "n < 0", "searchElement == _negativeZero", "arr != nil && int64(len(arr.values)) == length", "val == _negativeZero", "searchElement.SameAs(val)", "val == _negativeZero", "searchElement.SameAs(val)"] := by decide
+theorem includes_tie : G.facts_includes = [
+  ("conds:Runtime.arrayproto_includes", ["length == 0", "n >= length", "n < 0", "searchElement == _negativeZero", "arr != nil && int64(len(arr.values)) == length", "val == _negativeZero", "searchElement.SameAs(val)", "val == _negativeZero", "searchElement.SameAs(val)"])
+] := by rfl
 
 /-- builtin_math.go `Math.sign` returns Numbers only (795f82e) -/
-theorem mathsign_tie :
-    G.facts.lookup "returns:Runtime.math_sign" = some ["floatToValue(num)", "intToValue(1)", "intToValue(-1)"] := by decide
-
-
+theorem mathsign_tie : G.facts_mathsign = [
+  ("returns:Runtime.math_sign", ["floatToValue(num)", "intToValue(1)", "intToValue(-1)"])
+] := by rfl
 
 end GojaModel.C05.Tie
